@@ -21,6 +21,7 @@ var onDecl = map[string]string{
 	"mapKey":           "mk_on_decl",
 	"typeSwitchVar":    "tsv_on_decl",
 	"commentedOutCode": "coc_on_decl",
+	"typeUnparen":      "skt_on_decl",
 }
 
 // laws collects, per transform, the material of one cases file: the converted original and transformed files, the tags
